@@ -59,3 +59,6 @@ SPEC = {'id': 'C17',
  'trusted': ['Go stdlib modelled: container/heap, buffered channels / select / close, sync.Once, time.Time arithmetic'],
  'assumptions': ['a carrier\'s ReadFrom/WriteTo return (with an error) once the carrier has been closed',
                  'weak fairness of the Go scheduler (for "eventually finish")']}
+
+SPEC['rule'] += (' Added after the seeded-change rounds: ' +
+    'Populations of 300 and more clients expiring together; retention measured on the real clock after Close of the queue connection; concurrent enqueue from many goroutines; a redial connection whose write fails while the send queue is full (the writer must not block re-queueing).')
